@@ -39,7 +39,7 @@ BIG = [False]  # generator mode: larger sizes (long strings, long value lists, m
 
 
 def str_values(profile: str, wild: bool = True):
-    alpha = ["a", "B", "x", "1", " ", "-", "/", ".", "\\", '"', "'", ":", "^", "%", "_", "é"]
+    alpha = ["a", "B", "x", "1", " ", "-", "/", ".", "\\", '"', "'", ":", "^", "%", "_", "é", "\u0301", "😀", "１", "\u05d0"]
     if wild:
         alpha += ["*", "*", "?", "\\*", "\\?", "\\\\"]
     if profile == "sq":
@@ -114,7 +114,7 @@ def items(draw, cfg, fields):
         if chain[-1] == "all":
             value = [value, draw(str_values(prof, wild=False).filter(lambda s: all(ord(c) < 128 for c in s)))]
     else:  # windash
-        value = draw(st.sampled_from(["-a", "a -b", "/x -y", "-p-1 -q", "a-b", "x /f"]))
+        value = draw(st.sampled_from(["-a", "a -b", "/x -y", "-p-1 -q", "a-b", "x /f", "-é", "é-x /ü", "-１"]))
         chain = draw(st.sampled_from([["windash"], ["windash", "contains"], ["windash", "contains", "all"]]))
         if chain[-1] == "all":
             value = [value, "-z"]
